@@ -163,7 +163,7 @@ struct C11 : Profile {
     for (int i = 0; i < nrej; ++i) {
       int kind; size_t pos;
       if (i == 0 && k < gsz / 2) { kind = 0; pos = ntok ? (tier == "thorough" ? k : k * ntok / (gsz / 2)) : 0; }   // enumerate truncation points
-      else { kind = (int)r.weighted({2, 3, 2, 4, 2, 3, 1, 1}); pos = r.below(ntok ? ntok : 1); }
+      else { kind = (int)r.weighted({2, 3, 2, 4, 2, 3, 1, 1, 0, 0, 1.5}); pos = r.below(ntok ? ntok : 1); }
       std::string desc; std::string d = damage(r, q, kind, pos, desc);
       static const char* routes[] = {"parse", "parse", "capi", "interactive"};
       rej.push_back(json{{"text", enc(d)}, {"route", routes[r.below(4)]}, {"damage", desc}});
